@@ -84,6 +84,8 @@ def mailbox_programs(tier):
     add('timers_mixed_drop', None, {'c1': [('drop', A)]}, started_actions=(('interval', 'tick', 2), ('delayed_send', 'ds', 3)), max_clock=6, K=2, max_steps=24)
     add('timers_weak_upgrade_after_drop', None, {'c1': [('ping', A), ('downgrade', A, 'w'), ('mk_weak_sender', A, 'ws'), ('drop', A), ('upgrade', 'w'), ('upgrade_sender', 'ws')]}, started_actions=(('interval', 'tick', 2),), max_clock=4, K=2, max_steps=24)
     add('timers_interval_with_bounded', 1, {'c1': [('send', A, 'a1'), ('stop', A)]}, 1, started_actions=(('interval_with', 'tw', 1),), max_clock=2, K=1, max_steps=20)
+    # an interval_with timer that has already ticked must not keep the actor alive (a handle cached across its sleep would)
+    add('timers_interval_with_last_drop', None, {'c1': [('ping', A), ('downgrade', A, 'w'), ('sleep', 2), ('drop', A), ('upgrade', 'w')]}, started_actions=(('interval_with', 'tw', 1),), max_clock=3, K=1, max_steps=30)
     add('timers_delayed_exec_last_drop', None, {'c1': [('ping', A), ('drop', A)]}, started_actions=(('delayed_exec', 'de', 2), ('interval', 'tick', 1)), max_clock=3, K=1, max_steps=20)
     add('timers_delayed_exec_kill', None, {'c1': [('ping', A)]}, started_actions=(('delayed_exec', 'de', 2), ('interval', 'tick', 1)), max_clock=3, K=1, faults=1, max_steps=20)
     add('timers_handler_panics', None, {'c1': [('call', A, 'panic:1')]}, started_actions=(('delayed_exec', 'de', 2), ('interval', 'tick', 1)), max_clock=3, K=1, max_steps=20)
